@@ -1325,6 +1325,89 @@ async def c05_run_history(env, cfg, initial_truth, history, horizon):
     return out, exc
 
 
+async def c05_run_wait_until(env, cfg, initial_truth, history, horizon):
+    """task.wait_until(state_trigger=..., state_hold=, state_hold_false=, state_check_now=) on the REAL subsystem through the
+    timed history; returns [(t, label)] of the (single) return, [] if it has not returned by the horizon."""
+    from types import SimpleNamespace as NS
+    from custom_components.pyscript.state import State, StateVal
+    from custom_components.pyscript.global_ctx import GlobalContext, GlobalContextMgr
+    vt, table = env.vt, env.table
+    t0 = vt[0]
+    runs = []
+    table["pyscript.v"] = (str(10 if initial_truth else -10), {"a": "0"})
+    State.notify_var_last.clear()
+    kw = []
+    for k, name in (("S", "state_hold"), ("H", "state_hold_false")):
+        if cfg[k] is not None:
+            kw.append(f"{name}={cfg[k]!r}")
+    if cfg["check_now"] is not None:
+        kw.append(f"state_check_now={cfg['check_now']!r}")
+    src = ('@time_trigger("startup")\ndef f():\n    r = task.wait_until(state_trigger="int(pyscript.v) > 0"' + "".join(", " + k for k in kw) + ')\n    record(r)\n')
+    env.n += 1
+    name = f"file.c05w_{env.n}"
+    gctx = GlobalContext(name, global_sym_table={"__name__": name, "record": lambda r: runs.append((round(vt[0] - t0, 6), (r or {}).get("value")))},
+                         manager=GlobalContextMgr)
+    GlobalContextMgr.set(name, gctx)
+    gctx.set_auto_start(True)
+    tasks_before = set(asyncio.all_tasks())
+    _, _, exc = await run_source(name, src, global_ctx=gctx)
+    await settle(40)
+
+    def sv(val, attr):
+        return StateVal(NS(state=val, attributes={"a": attr}, entity_id="pyscript.v", last_updated="u", last_changed="c", last_reported="r"))
+    attr_n = 0
+    for (t, kind, label) in history:
+        await asyncio.sleep(max(0.0, t - (vt[0] - t0)))
+        old_s, old_a = table["pyscript.v"]
+        if kind == "attr":
+            attr_n += 1
+            new_s, new_a = old_s, {"a": str(attr_n)}
+        else:
+            mag = abs(int(old_s)) + 1
+            new_s, new_a = str(mag if kind == "true" else -mag), dict(old_a)
+        table["pyscript.v"] = (new_s, new_a)
+        new_val, old_val = sv(new_s, new_a["a"]), sv(old_s, old_a["a"])
+        new_val.label = label
+        await State.update({"pyscript.v": new_val, "pyscript.v.old": old_val},
+                           {"trigger_type": "state", "var_name": "pyscript.v", "value": new_val, "old_value": old_val, "context": None})
+        await settle(30)
+    await asyncio.sleep(max(0.0, horizon - (vt[0] - t0)))
+    await settle(30)
+    gctx.stop()
+    GlobalContextMgr.delete(name)
+    from custom_components.pyscript.function import Function
+    for t in set(asyncio.all_tasks()) - tasks_before:
+        if not t.done() and t is not asyncio.current_task() and t in Function.our_tasks:
+            t.cancel()      # a call that never returned is still waiting: cancel its task (cleanup is C15's business)
+    await settle(10)
+    return [(t, getattr(v, "label", None)) for (t, v) in runs], exc
+
+
+async def c05_wait_until_bounded(w):
+    """Bounded stand-in for task.wait_until's own copy of the hold logic: the same grid of configurations x timed histories as
+    c05_histories_bounded; the call must return exactly at the automaton's FIRST run (state_check_now defaults to True here),
+    with that run's arguments, and not at all when the automaton never runs."""
+    legacy = w["subsystem"] == "legacy"
+    depth, shard, nshards = int(w.get("depth", 2)), int(w.get("shard", 0)), int(w.get("nshards", 1))
+    env = await c05_env(legacy)
+    cases = [c for i, c in enumerate(c05_grid(depth)) if i % nshards == shard]
+    failures = []
+    for cfg, init, hist in cases:
+        eff = dict(cfg)
+        if eff["check_now"] is None:
+            eff["check_now"] = True       # documented default for task.wait_until
+        want = c05_reference(eff, init, hist)[:1]
+        got, exc = await c05_run_wait_until(env, cfg, init, hist, horizon=(hist[-1][0] if hist else 0.0) + 10.0)
+        if [list(x) for x in got] != [list(x) for x in want] or exc is not None:
+            if len(failures) < 3:
+                failures.append({"signature": f"wait_until:{w['subsystem']}:{cfg}:{init}:{hist}", "subsystem": w["subsystem"], "config": cfg, "initially_true": init,
+                                 "history": hist, "observed_return": got, "expected_return": want, "error": repr(exc) if exc else None})
+    await shutdown()
+    return {"unit": f"task.wait_until hold logic, {w['subsystem']} subsystem", "method": "real subsystem on a virtual clock vs the first run of the statement's automaton",
+            "bound": f"<= {depth} events per history, gaps in {{1,6}} s, holds in {{None,0,4}} s, shard {shard + 1}/{nshards}", "cases": len(cases),
+            "failures": failures, "reproduced": bool(failures)}
+
+
 C05_WITNESS_HISTORIES = {
     # what -> (cfg, initial truth, history)
     "pending-hold-changed": ({"S": 10.0, "H": None, "check_now": None}, False, [(1.0, "true", "e1"), (3.0, "attr", "e2")]),
@@ -2475,6 +2558,7 @@ async def c10_reload_bounded(w):
     rng = random.Random(1010 + int(w.get("seed", 0)))
     n_hist = int(w.get("histories", 40))
     failures, cases = [], 0
+    nontrivial, samples = set(), []
     hass = await boot_full()
     tmp = tempfile.mkdtemp(prefix="c10_")
     hass.config.path = lambda *a: os.path.join(tmp, *a)
@@ -2642,6 +2726,12 @@ async def c10_reload_bounded(w):
                 await settle(10)
                 got = {name: ctx for name, ctx in GlobalContextMgr.items() if name.split(".")[0] in ("file", "apps", "modules", "scripts")}
                 cases += 1
+                sig = (arg, tuple(sorted(discard & set(before))), tuple(load_now))
+                if (discard & set(before)) or load_now:
+                    nontrivial.add(sig)
+                    if len(samples) < 3:
+                        samples.append({"edits_since_last_reload": [list(x) for x in log[-3:]], "reload": arg, "expected_discard": sorted(discard & set(before)),
+                                        "expected_load": load_now, "loaded_before": sorted(before)})
                 if failed_loads or any(v == "IMPORT-FAILS" for v in new_imports.values()):
                     # an import of a missing module: error handling of partially loaded scripts is C18's business; resync the model
                     model = {n: {"obj": c, "imports": set(c.get_imports()), "src": c.get_source(), "mtime": c.get_mtime(), "cfg": c.get_app_config()} for n, c in got.items()}
@@ -2670,7 +2760,8 @@ async def c10_reload_bounded(w):
         shutil.rmtree(tmp, ignore_errors=True)
     await shutdown()
     return {"unit": "load_scripts + GlobalContext.module_import + start_global_contexts on a real tree", "method": "random edit/reload histories vs the statement's changed-set rules",
-            "bound": f"{n_hist} histories x <= {w.get('steps', 5)} reloads over {len(C10_FILES)} files", "cases": cases, "failures": failures, "reproduced": bool(failures)}
+            "bound": f"{n_hist} histories x <= {w.get('steps', 5)} reloads over {len(C10_FILES)} files", "cases": cases, "failures": failures, "reproduced": bool(failures),
+            "distinct_nontrivial": len(nontrivial), "samples": samples}
 
 
 SCENARIOS = {k: v for k, v in list(globals().items()) if asyncio.iscoroutinefunction(v) and k[0] == "c"}
